@@ -81,3 +81,12 @@ def print_assumptions(props_file):
     """output of the Print Assumptions commands in coq/Props/<file> (recorded in the evidence)"""
     p = subprocess.run(["coqc", "-Q", ".", "FV", props_file], cwd=H.COQ, capture_output=True, text=True)
     return (p.stdout + p.stderr).strip()
+
+
+def coqchk(props_files):
+    """independent re-check of the compiled property files and everything they depend on (thorough tier)"""
+    mods = ["FV." + f[:-2].replace("/", ".") for f in props_files]
+    p = subprocess.run(["timeout", "1500", "coqchk", "-o", "-Q", ".", "FV"] + mods, cwd=H.COQ, capture_output=True, text=True)
+    out = (p.stdout + p.stderr)
+    i = out.find("CONTEXT SUMMARY")
+    return {"rc": p.returncode, "summary": out[i:i + 900] if i >= 0 else out[-900:]}
